@@ -18,3 +18,4 @@ pub mod rrslow;
 pub mod rereg;
 pub mod hostile_server;
 pub mod chaos;
+pub mod regrace;
